@@ -1302,6 +1302,49 @@ func readsAgree(f *fox.Router, txn *fox.Txn, tr *tracker, pool, methods []string
 	if n != len(tr.committed) {
 		return fmt.Sprintf("Iter().All() yields %d routes, %d are registered", n, len(tr.committed))
 	}
+	// Prefix over SEVERAL methods at once (all registered methods, in the iterator's own order, and the
+	// reverse order): exactly the registered routes whose pattern starts with the prefix
+	prefixes := map[string]bool{"": true, "/": true}
+	for k := range keys {
+		prefixes[k[1][:(len(k[1])+1)/2]] = true
+		prefixes[k[1]] = true
+	}
+	var allMethods []string
+	for m := range it.Methods() {
+		allMethods = append(allMethods, m)
+	}
+	for _, rev := range []bool{false, true} {
+		ms := append([]string(nil), allMethods...)
+		if rev {
+			for i, j := 0, len(ms)-1; i < j; i, j = i+1, j-1 {
+				ms[i], ms[j] = ms[j], ms[i]
+			}
+		}
+		for pre := range prefixes {
+			got := map[[2]string]int{}
+			for m, r := range it.Prefix(func(yield func(string) bool) {
+				for _, m := range ms {
+					if !yield(m) {
+						return
+					}
+				}
+			}, pre) {
+				got[[2]string{m, r.Pattern()}]++
+			}
+			want := 0
+			for k := range tr.committed {
+				if strings.HasPrefix(k[1], pre) {
+					want++
+					if got[k] != 1 {
+						return fmt.Sprintf("Iter().Prefix(%v,%q) yields %s %q %d times, it is registered", ms, pre, k[0], k[1], got[k])
+					}
+				}
+			}
+			if len(got) != want {
+				return fmt.Sprintf("Iter().Prefix(%v,%q) yields %d distinct routes, %d registered routes have that prefix: %v", ms, pre, len(got), want, got)
+			}
+		}
+	}
 	for k := range keys {
 		cnt := 0
 		for m, r := range it.Routes(func(yield func(string) bool) { yield(k[0]) }, k[1]) {
